@@ -238,6 +238,20 @@ class C13(core.Check):
             nops = rng.randrange(1, 15) if r < 0.6 else rng.randrange(15, 60) if r < 0.9 else rng.randrange(60, maxops + 1)
             mem = MEMS[0] if rng.random() < 0.8 else rng.choice(MEMS[1:])
             ops = self.gen_ops(rng, nops, files=(mem == MEMS[0]))
+            if rng.random() < 0.1:
+                # RENUM-focused history (seed C13c): a handful of lines that jump to one another, then a partial RENUM
+                # that is accepted (start line in the middle, new number above the last line that keeps its number), a
+                # second RENUM or an edit afterwards
+                nums = sorted(rng.sample(range(1, 400), rng.randrange(3, 9)))
+                ops = [['S', k, rng.choice(['GOTO %d' % rng.choice(nums), 'GOSUB %d:PRINT %d' % (rng.choice(nums), k),
+                                            'IF X THEN %d ELSE %d' % (rng.choice(nums), rng.choice(nums)),
+                                            'ON X GOTO %d,%d' % (rng.choice(nums), rng.choice(nums)), 'PRINT %d' % k,
+                                            progen.line_body(rng, nums)])] for k in nums]
+                rng.shuffle(ops)
+                start = rng.choice(nums[1:])
+                below = max(k for k in nums if k < start)
+                ops.append(['X', rng.choice([below + 1, start, 500, 1000, rng.randrange(below + 1, 2000)]), start, rng.choice([None, 1, 7, 10, 100])])
+                ops.append(rng.choice([['X', None, None, None], ['S', 5, 'GOTO 1000'], ['D', None, below], ['R'], ['X', 10, None, 3]]))
             for o in ops:
                 k = o[0]
                 if k == 'S' and not o[2].strip():
